@@ -9,9 +9,17 @@
 #include "mini.hpp"
 #include "model.hpp"
 #include "ops.hpp"
+#include "emitted.hpp"
+#include "twpols.hpp"
 
 #include <yorel/yomm2/core.hpp>
 #include <yorel/yomm2/keywords.hpp>
+
+#include <alloca.h>
+#include <yorel/yomm2/decode.hpp>
+#ifndef YS_NO_GLUE
+#include "glue.hpp"
+#endif
 
 #include <cstring>
 #include <memory>
@@ -1051,8 +1059,7 @@ bool truth_le(int a, int b) {
 static_assert(std::is_base_of_v<Animal, RoboDog> && std::is_base_of_v<Property, RoboDog> && std::is_base_of_v<VBase, VD> && !std::is_base_of_v<Property, Dog>);
 
 using namespace y2::policy;
-struct tw_dbg : debug::rebind<tw_dbg> {};
-struct tw_rel : release::rebind<tw_rel> {};
+// tw_dbg, tw_rel: twpols.hpp
 struct tw_ind : basic_policy<tw_ind, std_rtti, fast_perfect_hash<tw_ind>, vptr_vector<tw_ind>, basic_indirect_vptr<tw_ind>, vectored_error<tw_ind>> {};
 struct tw_ref : debug::rebind<tw_ref> {}; // reference flavour for C10
 // custom integer ids, known at registration time / only at update
@@ -1145,6 +1152,41 @@ struct TwExec {
     std::uint64_t calls_by_method[12] = {}, defs_run_by_method[12] = {};
     std::vector<std::string> trace; // reports and outcome tables, in order
     std::uint64_t unregistered_calls = 0;
+    std::string encoded; // C13: encode_dispatch_data of the last update
+    std::uint64_t offsets_checked = 0;
+
+    static constexpr bool kGenerator =
+        std::is_same_v<P, tw_dbg> || std::is_same_v<P, tw_rel>;
+
+    // C12 through the real front-end: the generator's text for the policy
+    // against what update installed, method by method, in catalog order
+    void check_offsets_text(const std::string& text) {
+        std::vector<EmittedOffsets> eo;
+        std::string why = parse_offsets(text, eo);
+        if (!why.empty())
+            return fail("C12", "offsets-text-malformed", why);
+        std::size_t i = 0;
+        for (auto& m : P::methods) {
+            if (i >= eo.size())
+                return fail("C12", "offsets-text-missing-method",
+                            "write_static_offsets wrote fewer specialisations than the policy has methods");
+            auto& o = eo[i++];
+            std::size_t k = m.arity();
+            std::vector<std::size_t> is, it;
+            for (std::size_t j = 0; j < k; ++j)
+                is.push_back(m.slots_strides_ptr[j]);
+            for (std::size_t j = 1; j < k; ++j)
+                it.push_back(m.slots_strides_ptr[k + j - 1]);
+            ++offsets_checked;
+            if (o.slots != is || o.strides != it)
+                return fail("C12", "offsets-differ-from-installed",
+                            "generated offsets of " + o.method.substr(0, 120) +
+                                " are not the ones update installed (arity " + std::to_string(k) + ")");
+        }
+        if (i != eo.size())
+            fail("C12", "offsets-text-extra-method",
+                 "write_static_offsets wrote more specialisations than the policy has methods");
+    }
 
     void check_catalog_sizes(const std::string& when) {
         std::size_t ncls = 0, nmeth = 0;
@@ -1327,6 +1369,8 @@ struct TwExec {
                 }
                 if (it.kind == RK_DEF && !method_loaded(it.method))
                     continue; // a definition needs its method
+                if (it.kind == RK_DEF && it.has_next && g_tw_focus == "C13")
+                    continue; // decode does not install next (finding K1)
                 if (it.kind == RK_METHOD && method_loaded(it.method))
                     continue;
                 it.load();
@@ -1366,6 +1410,14 @@ struct TwExec {
                     auto comp = y2::update<P>();
                     clean = true;
                     ++updates;
+#ifndef YS_NO_GLUE
+                    if constexpr (kGenerator) {
+                        if (g_tw_focus == "C13")
+                            encoded = glue_encode<P>(comp, "P");
+                        if (g_tw_focus == "C12")
+                            check_offsets_text(glue_offsets_policy<P>());
+                    }
+#endif
                     trace.push_back("report " + std::to_string(comp.report.cells) + "/" +
                                     std::to_string(comp.report.not_implemented) + "/" +
                                     std::to_string(comp.report.ambiguous));
@@ -1605,6 +1657,22 @@ struct TwExec {
     }
 };
 
+// a new process: no class has a v-table pointer yet
+template<class P>
+void tw_zero_static_vptrs() {
+    P::template static_vptr<Animal> = nullptr;
+    P::template static_vptr<Dog> = nullptr;
+    P::template static_vptr<Cat> = nullptr;
+    P::template static_vptr<Bulldog> = nullptr;
+    P::template static_vptr<Property> = nullptr;
+    P::template static_vptr<Robot> = nullptr;
+    P::template static_vptr<RoboDog> = nullptr;
+    P::template static_vptr<VBase> = nullptr;
+    P::template static_vptr<VL> = nullptr;
+    P::template static_vptr<VR> = nullptr;
+    P::template static_vptr<VD> = nullptr;
+}
+
 template<class P>
 MiniOutcome tw_run_t(const J& c) {
     MiniOutcome o;
@@ -1615,11 +1683,77 @@ MiniOutcome tw_run_t(const J& c) {
             ex.viols.push_back({why.find("next") != std::string::npos ? "C03" : "C01", "macro-world", why});
     }
     ex.run(c.at("events").a);
+    if (g_tw_focus == "C13" && ex.clean && ex.viols.empty())
+        ex.check(); // the table of the state that was encoded
     auto hist_table = ex.table;
     std::vector<int> final_order = ex.order;
     bool final_clean = ex.clean;
     ex.cleanup();
     auto viols = ex.viols;
+    // C13 through the real front-end: another process holding the same
+    // registration objects (constructed again in the same order) decodes the
+    // text emitted for the last update instead of updating
+    if constexpr (TwExec<P>::kGenerator) {
+        if (g_tw_focus == "C13" && final_clean && !ex.encoded.empty()) {
+            tw_zero_static_vptrs<P>();
+            TwExec<P> consumer;
+            std::vector<J> evs;
+            for (int k : final_order) {
+                J e = J::arr();
+                e.push("load");
+                e.push(k);
+                evs.push_back(e);
+            }
+            consumer.run(evs);
+            EmittedData em;
+            std::string why = parse_emitted(ex.encoded, em);
+            unsigned char* block = nullptr;
+            if (!why.empty())
+                viols.push_back({"C13", "emitted-text-malformed", why});
+            else if (consumer.order != final_order)
+                ; // (cannot happen: the same legal loads in the same order)
+            else {
+                DecodeView d;
+                std::size_t size = 0;
+                block = layout_emitted(em, d, size);
+                bool ok = true;
+                try {
+                    y2::decode_dispatch_data<P>(d);
+                } catch (TwThrow& t) {
+                    ok = false;
+                    viols.push_back({"C13", "decode-failed",
+                                     "decode_dispatch_data reported error alternative " + std::to_string(t.alt)});
+                }
+                if (ok) {
+                    consumer.clean = true;
+                    consumer.check();
+                    o.counters["decoded_runs"] = 1;
+                    o.counters["decoded_calls"] = consumer.calls;
+                    for (auto& kv : hist_table) {
+                        auto it = consumer.table.find(kv.first);
+                        if (it == consumer.table.end() || it->second != kv.second) {
+                            viols.push_back({"C13", "decode-diff",
+                                             "after the encoded update " + kv.first + " gives " + kv.second +
+                                                 ", after decode_dispatch_data " +
+                                                 (it == consumer.table.end() ? std::string("(absent)") : it->second)});
+                            break;
+                        }
+                    }
+                    for (auto& v : consumer.viols) {
+                        bool inherited = false;
+                        for (auto& w : ex.viols)
+                            if (w.prop == v.prop && w.cls == v.cls)
+                                inherited = true;
+                        if (!inherited)
+                            viols.push_back({"C13", "decoded-" + v.prop + "-" + v.cls, v.detail});
+                    }
+                }
+            }
+            consumer.cleanup();
+            tw_zero_static_vptrs<P>();
+            std::free(block);
+        }
+    }
     // differential oracle (C07 / C08): the same methods and definitions with
     // the canonical registration of all classes, in a pristine policy
     if (final_clean && !hist_table.empty()) {
@@ -1720,6 +1854,7 @@ MiniOutcome tw_run_t(const J& c) {
             o.counters[std::string("definitions_run:") + names[m]] = ex.defs_run_by_method[m];
         }
     }
+    o.counters["offsets_methods_checked"] = ex.offsets_checked;
     o.counters["updates"] = ex.updates;
     o.counters["loads"] = ex.loads;
     o.counters["unloads"] = ex.unloads;
@@ -1737,6 +1872,8 @@ J tw_gen(std::uint64_t seed, int tier, long) {
     J c = J::obj();
     static const char* pols[] = {"tw_dbg", "tw_rel", "tw_ind", "tw_cus", "tw_dfr", "tw_dfh"};
     std::string pol = pols[r.below(6)];
+    if (g_tw_focus == "C12" || g_tw_focus == "C13")
+        pol = pols[r.below(2)]; // the generator needs std_rtti
     c.set("policy", pol);
     bool eager_custom = pol == "tw_cus";
     // which part of the menu this run may use (swarm)
